@@ -11,7 +11,7 @@ PID = "C11"
 LEVEL = "other"
 
 SCOPE = ("src/THDM/gm2_2loop_B.cpp", "src/THDM/gm2_2loop_F.cpp", "src/THDM/gm2_1loop_H.cpp", "src/gm2_ffunctions.cpp",
-         "src/MSSMNoFV/gm2_1loop.cpp", "src/MSSMNoFV/gm2_2loop.cpp")
+         "src/MSSMNoFV/gm2_1loop.cpp", "src/MSSMNoFV/gm2_2loop.cpp", "src/THDM/THDM.cpp")
 OPAQUE = re.compile(r"^gm2calc::(thdm::)?(\(anonymous namespace\)::)?(Fa|Fb|Ixyz|Iabc|F1C|F2C|F3C|F4C|F1N|F2N|F3N|F4N|G3|G4|"
                     r"f_PS|f_S|f_sferm|dilog|clausen_2|Phi|lambda_2|FPZ|FSZ|FCWl|FCWu|FCWd|f_CSl|f_CSd|f_CSu|"
                     r"is_equal_rel|is_equal|is_zero|sort|phi_uv|phi_pos|phi_neg|phi_over_y)$")
